@@ -156,7 +156,16 @@ def slug(s):
     return re.sub(r"[^A-Za-z0-9_.-]+", "_", s)[:80].strip("_") or "x"
 
 
+_known_cache = {}
+
+
 def load_known(pid):
+    if pid not in _known_cache:
+        _known_cache[pid] = _load_known(pid)
+    return _known_cache[pid]
+
+
+def _load_known(pid):
     p = os.path.join(VERIF, "known_findings.json")
     if not os.path.exists(p):
         return []
@@ -291,12 +300,15 @@ def do_run(pid, mod, tier, seed, scale):
         buckets.setdefault(f["bucket"], []).append(f)
     found_dir = os.path.join(rdir, "found")
     fail_samples = []
+    sigf = getattr(mod, "signature", None)
+    shrink = getattr(mod, "shrink", None)
+    kf = getattr(mod, "known_class", None)
+    n_shrink = 6 if sigf is not None else 3
     for bucket, members in buckets.items():
-        best = None
-        for m in members[:3]:
+        groups = collections.OrderedDict()   # signature -> (size, case, detail)
+        for m in members[:n_shrink]:
             case = m["case"]
             detail = m["detail"]
-            shrink = getattr(mod, "shrink", None)
             if shrink is not None:
                 try:
                     case2 = shrink(case, bucket)
@@ -305,31 +317,34 @@ def do_run(pid, mod, tier, seed, scale):
                         case, detail = case2, res[1]
                 except Exception:
                     print("note: shrinker raised, keeping unshrunk case\n" + traceback.format_exc())
+            sig = sigf(case) if sigf is not None else ""
             sz = len(json.dumps(case, default=str))
-            if best is None or sz < best[0]:
-                best = (sz, case, detail)
-        _, case, detail = best
-        # a bucket the module attributes to a listed known finding is not an alarm
-        kid = None
-        kf = getattr(mod, "known_class", None)
-        if kf is not None:
-            kid = kf(case, bucket)
-        if kid and kid in known_by_id and known_by_id[kid].get("status") == "known":
-            print("KNOWN-FINDING: property=%s %s [%s]" % (pid, known_by_id[kid]["what"], kid))
-            extra["generated_cases_in_known_class"] = extra.get("generated_cases_in_known_class", 0) + len(members)
-            continue
-        os.makedirs(found_dir, exist_ok=True)
-        path = os.path.join(found_dir, "%s-seed%d-%s.json" % (tier, seed, slug(bucket)))
-        with open(path, "w") as fh:
-            json.dump({"property": pid, "bucket": bucket, "case": case, "detail": detail,
-                       "found_by": {"tier": tier, "seed": seed}}, fh, indent=1, default=str)
-        rel = os.path.relpath(path, VERIF)
-        violations += 1
-        print("  bucket=%s (%d cases)\n    case=%s\n    %s" % (
-            bucket, classes.get("FAIL:" + bucket, len(members)),
-            json.dumps(case, default=str)[:600], detail[:600]))
-        out_lines.append("VIOLATION property=%s replay=%s" % (pid, rel))
-        fail_samples.append({"bucket": bucket, "case": case})
+            if sig not in groups or sz < groups[sig][0]:
+                groups[sig] = (sz, case, detail)
+        for sig, (_, case, detail) in groups.items():
+            # a bucket the module attributes to a listed known finding is not an alarm
+            kid = kf(case, bucket) if kf is not None else None
+            if kid and kid in known_by_id and known_by_id[kid].get("status") == "known":
+                ln = "KNOWN-FINDING: property=%s %s [%s]" % (pid, known_by_id[kid]["what"], kid)
+                if ln not in known_lines:
+                    print(ln)
+                    known_lines.append(ln)
+                extra["generated_cases_in_known_class"] = extra.get("generated_cases_in_known_class", 0) + 1
+                continue
+            os.makedirs(found_dir, exist_ok=True)
+            name = slug(bucket) + ("-" + digest(sig)[:6] if sig else "")
+            path = os.path.join(found_dir, "%s-seed%d-%s.json" % (tier, seed, name))
+            with open(path, "w") as fh:
+                json.dump({"property": pid, "bucket": bucket, "signature": sig, "case": case,
+                           "detail": detail, "found_by": {"tier": tier, "seed": seed}},
+                          fh, indent=1, default=str)
+            rel = os.path.relpath(path, VERIF)
+            violations += 1
+            print("  bucket=%s (%d cases)%s\n    case=%s\n    %s" % (
+                bucket, classes.get("FAIL:" + bucket, len(members)), (" sig=" + sig) if sig else "",
+                json.dumps(case, default=str)[:700], detail[:700]))
+            out_lines.append("VIOLATION property=%s replay=%s" % (pid, rel))
+            fail_samples.append({"bucket": bucket, "case": case})
 
     # ---- 4. evidence ----------------------------------------------------------------
     wall = time.time() - t0
